@@ -1,2 +1,166 @@
-(* C16 - placeholder while the model and the correspondence are being set up *)
-From PV Require Import C16.Model C16.Spec.
+(* C16 — A crash during an epoch update never loses the last or best checkpoint.
+   Property theorems only: each is closed by [exact <lemma>] and followed by
+   [Print Assumptions].  The harness re-checks this file on every run.
+
+   Vocabulary (PV.C16.Model): [reach P E d cn] = disk [d] can be left behind by some sequence
+   of update calls each of which performed only the first k of its file-system calls (any k,
+   any number of crashed calls; k >= number of calls = the update completed); [reach_full] =
+   no crash; [reach1] = at most one crash per epoch (a crashed update is followed by a
+   completed one).  [final P E d cn] = the disk after a new process, started on [d], has
+   trained to the end without dying.  [stored P d e] (PV.C16.Safety) = epoch e is recorded and
+   both its files hold the parameter value of the very call that wrote its history row.
+   [epf P] = both file-name formats contain {epoch}. *)
+From Coq Require Import List Arith Bool ZArith Lia.
+From PV Require Import C16.Model C16.Spec C16.Proofs C16.Hist C16.Safety C16.Bridge C16.Witness.
+Import ListNotations.
+
+(* "a controller started afterwards on the same files loads a history that is a prefix of the
+   uninterrupted one" - every retention mode, every format, any number of crashes *)
+Theorem c16_crash_history_is_prefix : forall P E d cn,
+  reach P E d cn ->
+  map hrow (csv d) = firstn (length (csv d)) (map hrow (csv (final P E empty_disk 0))).
+Proof. exact crash_history_is_prefix. Qed.
+Print Assumptions c16_crash_history_is_prefix.
+
+(* "and on continuing training ends with the same history as if nothing had happened" -
+   every retention mode, every format, any number of crashes *)
+Theorem c16_crash_then_continue_same_history : forall P E d cn,
+  reach P E d cn ->
+  map hrow (csv (final P E d cn)) = map hrow (csv (final P E empty_disk 0)).
+Proof. exact continue_same_history. Qed.
+Print Assumptions c16_crash_then_continue_same_history.
+
+(* the recorded epochs are 1..n with the metrics of those epochs, whatever happened *)
+Theorem c16_history_rows : forall P E d cn,
+  reach P E d cn ->
+  exists n, n <= length (ms E) /\ map hrow (csv d) = firstn n (hist_from 1 (ms E)).
+Proof. exact reach_wfh. Qed.
+Print Assumptions c16_history_rows.
+
+(* every update call, in every branch, appends exactly one row: its own *)
+Theorem c16_update_appends_one_row : forall P d c tr va cn v ro ops r,
+  update_ops P d c tr va cn v ro = Some (ops, r) ->
+  r = mkRow (S (last_epoch c)) tr va v /\ flat_map appended ops = [r].
+Proof. exact update_ops_appends. Qed.
+Print Assumptions c16_update_appends_one_row.
+
+(* "can load model and optimizer states for both the last recorded epoch and the best epoch,
+   gets exactly the parameters that were saved for those epochs" - keep last and best only,
+   formats with the epoch field, any number of crashes at any points *)
+Theorem c16_crash_last_and_best_loadable : forall P E d cn,
+  epf P -> klb P = true -> reach P E d cn ->
+  forall e, 1 <= e -> (e = seen_last d \/ e = seen_best P d) -> stored P d e.
+Proof. exact crash_last_and_best_loadable. Qed.
+Print Assumptions c16_crash_last_and_best_loadable.
+
+(* the same two clauses and "when everything is kept, every recorded epoch stays loadable"
+   (with the saved parameters) - keep everything, formats with the epoch field, at most one
+   crash per epoch.  PARTIAL with respect to the property: for two crashes within one epoch
+   the statement is false, see c16_keep_all_double_crash_refuted (K3). *)
+Theorem c16_keep_all_every_epoch_loadable_partial : forall P E d cn,
+  epf P -> klb P = false -> reach1 P E d cn ->
+  forall e, 1 <= e <= seen_last d -> stored P d e.
+Proof. exact keep_all_every_epoch_loadable. Qed.
+Print Assumptions c16_keep_all_every_epoch_loadable_partial.
+
+(* "when only the last and best checkpoints are kept, after every completed update the state
+   directory holds exactly those two epochs' files and nothing else" - crash-free runs,
+   formats with the epoch field.  PARTIAL: after a crash the "nothing else" half is false, see
+   c16_dir_exact_after_crash_refuted (K6); the "holds those files" half after crashes is
+   c16_crash_last_and_best_loadable. *)
+Theorem c16_completed_update_dir_exact_partial : forall P E d cn,
+  epf P -> klb P = true -> reach_full P E d cn ->
+  exists n, wfh E d n /\
+    forall q, fs_get q (files d) <> None <->
+              exists k e, q = pth P k e /\ 1 <= e /\ (e = n \/ e = best_epoch (bt P) (csv d)).
+Proof. exact completed_update_dir_exact. Qed.
+Print Assumptions c16_completed_update_dir_exact_partial.
+
+(* the executable run used by the correspondence only ever observes reachable disks, so the
+   theorems above speak about every observation the harness compares *)
+Theorem c16_run_observes_reachable : forall P E crashes o,
+  In o (run_schedule P E empty_disk 0 crashes) ->
+  exists d cn, reach P E d cn /\ o = observe P d (o_outcome o) (o_log o).
+Proof. exact run_observes_reachable. Qed.
+Print Assumptions c16_run_observes_reachable.
+
+(* the boolean spec the harness applies to the implementation accepts every observation of
+   the model, for the clauses "last epoch loads with its parameters" and "history is a
+   prefix": keep last and best, epoch formats, any crash schedule *)
+Theorem c16_spec_accepts_model_klb : forall P E crashes o,
+  epf P -> klb P = true ->
+  In o (run_schedule P E empty_disk 0 crashes) ->
+  p_last o = true /\ p_prefix (csv (final P E empty_disk 0)) o = true.
+Proof. exact spec_accepts_model_klb. Qed.
+Print Assumptions c16_spec_accepts_model_klb.
+
+(* ---- what is false of the faithful model (known findings), with witnesses ---- *)
+
+(* K2: formats WITHOUT the epoch field: one crash between the history append and os.replace *)
+Theorem c16_no_epoch_format_refuted :
+  exists P mets crashes,
+    ep_m P = false /\ ep_o P = false /\ length crashes = 1 /\
+    spec_part 0 P (uninterrupted_hist P mets) (run P mets [] crashes) = true /\
+    spec_part 1 P (uninterrupted_hist P mets) (run P mets [] crashes) = false.
+Proof. exact no_epoch_format_refuted. Qed.
+Print Assumptions c16_no_epoch_format_refuted.
+
+Theorem c16_no_epoch_format_refuted_reach :
+  exists P E d cn, ep_m P = false /\ ep_o P = false /\ reach P E d cn /\ ~ stored P d (seen_last d).
+Proof. exact no_epoch_format_refuted_reach. Qed.
+Print Assumptions c16_no_epoch_format_refuted_reach.
+
+(* K3: keep everything, epoch formats, two crashes within one epoch: the last recorded epoch
+   does not load at all (optimizer file missing) ... *)
+Theorem c16_keep_all_double_crash_refuted :
+  exists P mets crashes,
+    epf P /\ klb P = false /\ length crashes = 2 /\
+    spec_part 0 P (uninterrupted_hist P mets) (run P mets [] crashes) = true /\
+    spec_part 1 P (uninterrupted_hist P mets) (run P mets [] crashes) = false /\
+    spec_part 6 P (uninterrupted_hist P mets) (run P mets [] crashes) = false.
+Proof. exact keep_all_double_crash_refuted. Qed.
+Print Assumptions c16_keep_all_double_crash_refuted.
+
+(* ... or loads the parameters of the first attempt while the row was written by the second *)
+Theorem c16_keep_all_double_crash_stale_refuted :
+  exists P E d cn, epf P /\ klb P = false /\ reach P E d cn /\ ~ stored P d (seen_last d) /\
+                   fs_get (pth P KM (seen_last d)) (files d) = Some 1%Z /\
+                   map r_tag (csv d) = [2%Z].
+Proof. exact keep_all_double_crash_stale_refuted. Qed.
+Print Assumptions c16_keep_all_double_crash_stale_refuted.
+
+(* K6: after a crash inside the clean-up, later completed updates leave a stale checkpoint:
+   all clauses hold except "and nothing else" *)
+Theorem c16_dir_exact_after_crash_refuted :
+  exists P mets crashes,
+    epf P /\ klb P = true /\ length crashes = 1 /\
+    map (fun i => spec_part i P (uninterrupted_hist P mets) (run P mets [] crashes)) (seq 0 7)
+    = [true; true; true; true; true; false; true].
+Proof. exact dir_exact_after_crash_refuted. Qed.
+Print Assumptions c16_dir_exact_after_crash_refuted.
+
+(* K7: keep everything with a format without the epoch field: the best epoch is overwritten
+   by the last one even without any crash *)
+Theorem c16_keep_all_no_epoch_best_refuted :
+  exists P mets,
+    klb P = false /\ ep_m P = false /\
+    spec_part 2 P (uninterrupted_hist P mets) (run P mets [] []) = false.
+Proof. exact keep_all_no_epoch_best_refuted. Qed.
+Print Assumptions c16_keep_all_no_epoch_best_refuted.
+
+(* ---- non-vacuity: concrete reachable disks with a crash strictly inside an update ---- *)
+
+Example c16_nonvacuous :
+  let E := mkEnv [(12, 12); (8, 8); (4, 4)]%Z pv_count (fun _ => []) in
+  exists d cn, epf P_lb_ep /\ klb P_lb_ep = true /\ reach P_lb_ep E d cn /\
+               seen_last d = 2 /\ seen_best P_lb_ep d = 2 /\
+               fs_get (Ckpt KM (Some 1)) (files d) = None /\
+               fs_get (Ckpt KO (Some 1)) (files d) = Some 1%Z /\
+               fs_get (Ckpt KM (Some 2)) (files d) = Some 2%Z.
+Proof. exact nonvacuous_klb. Qed.
+
+Example c16_keep_all_nonvacuous :
+  let E := mkEnv [(12, 12); (8, 8)]%Z pv_count (fun _ => []) in
+  exists d cn, epf P_all_ep /\ klb P_all_ep = false /\ reach1 P_all_ep E d cn /\ seen_last d = 1 /\
+               fs_get (Ckpt KO (Some 1)) (files d) = Some 2%Z.
+Proof. exact nonvacuous_keep_all. Qed.
